@@ -5,11 +5,6 @@ impl QueuedUpdateProposal {
     pub fn update_proposal(&self) -> (r: &UpdateProposal) ensures *r == self.up { &self.up }
     pub fn sender(&self) -> (r: &Sender) ensures *r == self.snd { &self.snd }
 }
-#[verifier::external_body] pub struct QueuedProposal { _p: u8 }
-impl QueuedProposal {
-    #[verifier::external_body] pub fn proposal(&self) -> (r: &Proposal) { unimplemented!() }
-    #[verifier::external_body] pub fn sender(&self) -> (r: &Sender) { unimplemented!() }
-}
 #[verifier::external_body] pub struct UpIter { _p: u8 }
 #[verifier::external_body] pub struct QpIter { _p: u8 }
 impl UpIter {
